@@ -575,9 +575,13 @@ class StateTr(Tr):
                 return f"let {self.st} := {self.effects[f]} {' '.join(self.state)} {args}".rstrip()
         return None
 
+    def fin(self) -> str:
+        """the value of a finished method: the state (wrapped in `Except.ok` for methods that can raise)"""
+        return f"(Except.ok {self.st})" if self.s.kind == "except" else self.st
+
     def stm(self, stmts: list[ast.stmt], depth: int, in_loop: bool) -> str:
         ind = "  " * depth
-        done = f"({', '.join(self.state)}, false)" if in_loop else self.st
+        done = f"({', '.join(self.state)}, false)" if in_loop else self.fin()
         stmts = [s for s in stmts if not self.skippable(s)]
         if not stmts:
             return done
@@ -588,7 +592,7 @@ class StateTr(Tr):
         if isinstance(st, ast.Return) and st.value is None:
             if in_loop:
                 raise Untranslatable(f"{self.s.qualname}: return inside a loop")
-            return self.st
+            return self.fin()
         if isinstance(st, ast.With):
             return self.stm(list(st.body) + rest, depth, in_loop)
         if isinstance(st, ast.Break):
@@ -599,6 +603,10 @@ class StateTr(Tr):
             val = self.e(st.value)
             self.defined.add(st.targets[0].id)
             return f"let {self.e_Name(st.targets[0])} := {val}\n{ind}{self.stm(rest, depth, in_loop)}"
+        if isinstance(st, ast.AnnAssign) and isinstance(st.target, ast.Name) and st.value is not None:
+            val = self.e(st.value)
+            self.defined.add(st.target.id)
+            return f"let {self.e_Name(st.target)} := {val}\n{ind}{self.stm(rest, depth, in_loop)}"
         if isinstance(st, ast.For) and isinstance(st.target, ast.Name) and not st.orelse and not in_loop and self._local_only(st):
             # a loop that only updates locals (no effect on the object state, no break): a fold over the loop-carried locals
             carried = [v for v in self.assigned_names(list(st.body)) if v in self.defined]
@@ -616,6 +624,10 @@ class StateTr(Tr):
             t = ast.unparse(st)
             if t in self.s.subst:
                 return self.s.subst[t]
+            if self.s.kind == "except" and not in_loop:
+                exc = st.exc
+                name = ast.unparse(exc.func) if isinstance(exc, ast.Call) else ast.unparse(exc)
+                return f'(Except.error "{name}")'
         if isinstance(st, ast.If):
             t = ast.unparse(st.test)
             if t in self.s.variants:
